@@ -320,7 +320,7 @@ static void CodeCASE(void) {
                 as_tempres_ini(&t);
                 eq = False;
                 z  = 1;
-                do {
+                do VERIF_LOOP(asmif_case) {
                     EvalIfExpression(&ArgStr[z], &t);
                     eq = (FirstIfSave->SaveExpr.Typ == t.Typ);
                     if (eq) {
@@ -344,7 +344,7 @@ static void CodeCASE(void) {
                         }
                     }
                     z++;
-                } while (!eq && (z <= ArgCnt)) VERIF_LOOP(asmif_case);
+                } while (!eq && (z <= ArgCnt));
                 as_tempres_free(&t);
             }
             IfAsm = (FirstIfSave->SaveIfAsm && eq && !FirstIfSave->CaseFound);
